@@ -219,6 +219,28 @@ static int setup(void)
 		if (lchan->active && (unsigned)lchan->type < _L1SCHED_CHAN_MAX)
 			active[lchan->type] = 1;
 	}
+	/* every channel used by a frame of the layout got a channel state */
+	{
+		uint8_t has_state[_L1SCHED_CHAN_MAX], reported[_L1SCHED_CHAN_MAX];
+		unsigned f;
+		memset(has_state, 0, sizeof(has_state));
+		memset(reported, 0, sizeof(reported));
+		llist_for_each_entry(lchan, &ts->lchans, list)
+			if ((unsigned)lchan->type < _L1SCHED_CHAN_MAX)
+				has_state[lchan->type] = 1;
+		for (f = 0; mf && mf->frames && f < mf->period; f++) {
+			int k, x[2] = { mf->frames[f].dl_chan, mf->frames[f].ul_chan };
+			for (k = 0; k < 2; k++) {
+				if (x[k] == L1SCHED_IDLE || (unsigned)x[k] >= _L1SCHED_CHAN_MAX)
+					continue;
+				if (!has_state[x[k]] && !reported[x[k]]) {
+					reported[x[k]] = 1;
+					viol("no-lchan-state", f, "l1sched_configure_ts(tn=%d, config=%d) created no channel state for lchan %d, "
+					     "which owns the %s frame %u of the layout", cfg_tn, cfg_config, x[k], k ? "UL" : "DL", f);
+				}
+			}
+		}
+	}
 	return 0;
 }
 
